@@ -480,3 +480,20 @@ def _z3_twins():
 
 
 _z3_twins()
+
+
+# ---- explanations / outside lists for the harnesses added with the cooperative goroutine model and the wire harnesses ----
+GOR = " (cooperative goroutine model: control changes hands only at blocking operations and every other goroutine then runs to quiescence; pre-emptive interleavings are outside)"
+CHECKS["C01"]["explanation"] += " VerifC01Idle: the real Session.handleIdle with its sender goroutine, State.Idle / PushResponder and the real async.QueuedChannel while the other session acts; the mirror is fed from the wire lines. VerifC01Wire: two clients on the wire, each served by the real Session.serve loop (command reader goroutine, parser, handlers, response rendering); the observer's client probes with FETCH 1:* (UID FLAGS) on the wire after every command" + GOR + "."
+CHECKS["C01"]["outside"] = [o for o in CHECKS["C01"]["outside"] if not o.startswith("the goroutine hand-over")] + ["pre-emptive schedules of the IDLE / serve goroutines (cooperative goroutine model)"]
+CHECKS["C02"]["explanation"] += " VerifC02Queue: async.QueuedChannel from its real code with its consumer goroutine: FIFO, loss-free, no duplicates, no dead-lock, consumer ends after Close + drain; connector-realqueue: the connector harness with that real queue in the loop; wire: the two-client wire harness, ending with a fresh EXAMINE client whose FETCH 1:* (UID FLAGS) must equal the observer's after NOOP" + GOR + "."
+CHECKS["C05"]["explanation"] += " wire: on the wire no EXPUNGE line is written while a FETCH or STORE is answered and the tagged OK says [EXPUNGEISSUED] when a removal is held back."
+CHECKS["C05"]["outside"] = [o for o in CHECKS["C05"]["outside"] if "EXPUNGEISSUED" not in o] + ["pre-emptive schedules (cooperative goroutine model)"]
+CHECKS["C04"]["explanation"] += " VerifC04History: histories of APPEND / COPY / MOVE (also onto the same mailbox) / EXPUNGE of the highest UID with connector failures on the relational model: a UID denotes one message for ever, new UIDs exceed every UID ever assigned, UIDNEXT exceeds them and never decreases, APPENDUID / COPYUID pairs (read as RFC 4315 prescribes) name the rows the messages are found under. VerifC04Recreate family 1: two sessions issuing CREATE / DELETE on one name."
+CHECKS["C07"]["explanation"] += " VerifC07Commands (cmdcrash): one client command (APPEND, COPY, MOVE, EXPUNGE, CREATE, DELETE, RENAME) through the real state layer on a backend user with failing database operations, failing commits, store and connector calls and a crash after any prefix of the durable effects: start-up leaves every listed message fetchable, no left-overs, every mailbox as before or as after the command. VerifC07WrapTx: the transaction protocol of Client.Write / wrapTx (commit exactly once on nil; rollback and no commit on error or panic; lock released), with (*sql.DB).BeginTx / (*sql.Tx).Commit / Rollback as counting intrinsics and a counting database/sql driver for the native replay."
+CHECKS["C07"]["outside"] = [o for o in CHECKS["C07"]["outside"] if not o.startswith("mailbox create/delete/rename and client commands")] + ["that SQLite honours COMMIT / ROLLBACK"]
+CHECKS["C11"]["explanation"] += " VerifC11Wire / VerifC11WireLines: the whole session loop on the wire (Session.serve, command reader goroutine, bufio, input collector, parser recovery, error counter, handler goroutine, LOGOUT) on a scripted connection: after an arbitrary line of n bytes the next command is still served; every line of a script is answered by exactly one completion result with its tag, in order" + GOR + "."
+CHECKS["C11"]["outside"] = [o for o in CHECKS["C11"]["outside"] if not o.startswith("the 20-errors")] + ["the 20-errors disconnect (scripts are shorter)", "literal announcements inside the arbitrary line of the wire harness"]
+CHECKS["C13"]["explanation"] += " VerifC13Wire: APPEND with a synchronising literal and FETCH of RFC822.SIZE / BODY[] / HEADER / TEXT / a partial on the wire through the real session loop, read as a client reads literals ({n} then n bytes)."
+CHECKS["C13"]["outside"] = [o for o in CHECKS["C13"]["outside"] if not o.startswith("the {n} framing")]
+CHECKS["C18"]["explanation"] = CHECKS["C18"].get("explanation", "") + " VerifC18DBPath: the SQLite URI getDatabaseConn builds from a user's path, read as SQLite reads it, names exactly that path (different users never share a database file). wirelines: gating by LOGIN / SELECT judged on the wire through the real session loop."
